@@ -348,3 +348,33 @@ def partner(repo: Repo) -> List[Ob]:
     if n < 4:
         raise AnalysisError(f"PARTNER: {n} partner look-ups (floor 4)")
     return obs
+
+
+@rule("DIM-NORM")
+def dim_norm(repo: Repo) -> List[Ob]:
+    """the traced-out state handed to the dimension estimator is normalised first (its cumulative-weight
+    threshold is meaningless otherwise)"""
+    from ..cfg import CFG
+    from ..domains import is_norm2, is_trace
+    obs: List[Ob] = []
+    P = ("C10",)
+    fi = repo.cls("FockOperationType").methods["compute_dimensions"]
+    cfg = CFG(fi.node)
+    norm_nodes = set()
+    for n in cfg.nodes:
+        a = n.ast
+        if n.kind == "stmt" and isinstance(a, (ast.Assign, ast.AugAssign)):
+            tgt = a.targets[0] if isinstance(a, ast.Assign) else a.target
+            if src(tgt) == "state":
+                for x in ast.walk(a.value):
+                    if (isinstance(x, ast.BinOp) and isinstance(x.op, ast.Div) and (is_norm2(x.right) is not None or is_trace(x.right) is not None)) \
+                            or (isinstance(a, ast.AugAssign) and isinstance(a.op, ast.Div) and (is_norm2(a.value) is not None or is_trace(a.value) is not None)):
+                        norm_nodes.add(n)
+    uses = [n for n in cfg.nodes for x in walk_node(n) if isinstance(x, ast.Call) and (dotted(x.func) or "").endswith("FockDimensions")]
+    if not uses:
+        raise AnalysisError("DIM-NORM: no FockDimensions(...) construction in FockOperationType.compute_dimensions")
+    for i, u in enumerate(uses, 1):
+        good = bool(norm_nodes) and cfg.must_pass_through(u, norm_nodes)
+        (obs.append(ok("DIM-NORM", fi, f"estimator-input#{i}", P, u.ast, "the estimator receives a normalised state on every path")) if good else
+         obs.append(bad("DIM-NORM", fi, f"estimator-input#{i}", P, u.ast, "the dimension estimator can receive an un-normalised traced-out state: its threshold test stops too early (or never) and the automatic cutoff is wrong")))
+    return obs
